@@ -13,3 +13,16 @@ Theorem C02_run_with_removers : forall steps l,
   Sub (comments (run l steps)) (comments l).
 Proof. exact C02_run_with_removers. Qed.
 Print Assumptions C02_run_with_removers.
+
+Require Import Phases FullRun.
+Theorem C02_full_run : forall edits_of norm rules fix_phase skip l,
+  (forall l', comments (norm l') = comments l') ->
+  events_ok edits_of norm c02_edit_ok l (fix_events rules fix_phase skip) = true ->
+  comments (full_run edits_of norm rules fix_phase skip l) = comments l.
+Proof.
+  intros edits_of norm rules fp skip l Hn H.
+  apply (full_run_preserves edits_of norm _ comments) with (ok := c02_edit_ok); auto.
+  - intros a b. unfold comments. now rewrite filter_app, map_app.
+  - intros a b. apply strs_eqb_eq.
+Qed.
+Print Assumptions C02_full_run.
